@@ -1781,6 +1781,20 @@ class Interp:
         pass
 
     def exec_Assign(self, node):
+        # `x = x <op> e` on a name is the expanded spelling of `x <op>= e`: one event kind for both
+        if len(node.targets) == 1 and isinstance(node.targets[0], ast.Name) and isinstance(node.value, ast.BinOp):
+            n, b = node.targets[0].id, node.value
+            left_same = isinstance(b.left, ast.Name) and b.left.id == n
+            right_same = isinstance(b.right, ast.Name) and b.right.id == n and isinstance(b.op, (ast.Add, ast.Mult))
+            if (left_same or right_same) and n in self.frame.env:
+                cur = self.lookup_name(n, node)
+                if not isinstance(cur, Ref):
+                    other = b.right if left_same else b.left
+                    rhs = self.eval(other)
+                    v = self.binop(type(b.op).__name__, cur, rhs, node) if left_same else self.binop(type(b.op).__name__, rhs, cur, node)
+                    self.log("augassign", node, target=n, op=type(b.op).__name__, cur=cur, rhs=rhs, value=v)
+                    self.assign(node.targets[0], v, node)
+                    return
         v = self.eval(node.value)
         for t in node.targets:
             self.assign(t, v, node)
